@@ -107,8 +107,16 @@ func modB() []byte {
 
 // modE imports A's exported table and writes ITS OWN function into a slot with
 // an active element segment: the exported table then refers into this instance.
-func modE(k int32, slot int32) []byte {
+func modE(k int32, slot int32) []byte { return modEF(k, slot, false) }
+
+// modEF: failing=true adds a memory and an out-of-bounds active data segment: the instantiation fails
+// AFTER the element segment wrote the function into the imported table, where it stays callable.
+func modEF(k int32, slot int32, failing bool) []byte {
 	m := &wasmb.Module{}
+	if failing {
+		m.Mem = &wasmb.Limits{Min: 1}
+		m.Datas = []wasmb.Data{{Offset: wasmb.ConstI32(0x7ffffff0), Bytes: []byte{1}}}
+	}
 	i32 := []wasmb.ValType{wasmb.I32}
 	m.Imports = append(m.Imports, wasmb.Import{Module: "a", Name: "tab", Kind: wasmb.KindTable, Table: wasmb.Table{Elem: wasmb.FuncRef, Lim: wasmb.Limits{Min: 4}}})
 	mul := m.AddFunc(i32, i32, nil, (&wasmb.Code{}).LocalGet(0).I32Const(k).I32Mul().B, "mul")
@@ -173,6 +181,7 @@ type runner struct {
 	curA            int // index of the open A registered as "a" (-1 none)
 	everA           bool
 	followUp        []int
+	leftover        map[int]int32 // table slot -> multiplier of the function a FAILED importer left there
 	forceImporter   bool
 	cacheClosed     bool
 	shape           []string
@@ -291,6 +300,8 @@ func (r *runner) instantiateOn(s *side, kind byte, k int32, via int, rtIdx int) 
 		bin = modD()
 	case 'E':
 		bin = modE(k, 1+k%3)
+	case 'F':
+		bin = modEF(k, 1+k%3, true)
 	}
 	rt := s.rts[rtIdx]
 	in := &instance{kind: kind, k: k, rt: rtIdx, definer: -1, glob: -1, slots: [3]int{-1, -1, -1}}
@@ -349,6 +360,16 @@ func (r *runner) compareCall(what string, i int, fn string, args ...uint64) {
 	got := outcome(real.mod.ExportedFunction(fn).Call(r.ctx, args...))
 	want := outcome(twin.mod.ExportedFunction(fn).Call(r.ctx, args...))
 	r.log("%s -> %s (twin %s)", what, got, want)
+	if fn == "callslot" && len(args) == 2 {
+		if k, ok := r.leftover[int(args[0])]; ok && real.kind == 'A' {
+			// the slot holds the function of a failed importer: mul(x) = x*k, known without the twin (a
+			// collection hits both runtimes alike)
+			if exp := fmt.Sprintf("[%d]", uint32(int32(args[1])*k)); got != exp {
+				r.res.Fail("behaviour-changed", "%s returned %s; the slot holds the function a failed importer's element segment left there, which computes %s", what, got, exp)
+				return
+			}
+		}
+	}
 	if got != want && !strings.HasPrefix(got, "error: ") {
 		r.res.Fail("behaviour-changed", "%s returned %s; the twin runtime in which nothing was closed or collected returned %s", what, got, want)
 	}
@@ -397,6 +418,25 @@ func (r *runner) step(shared bool) {
 			return // (new compilations after closing the shared cache are outside the property)
 		}
 		kk := int32(1 + len(r.real.insts)*7)
+		if kind == 'E' && t.Chance(1, 3) {
+			// an importer that FAILS after its element segment was applied: nothing of it is registered, no
+			// handle exists, but its function sits in A's table (specification: the write persists)
+			kk += int32(100 * (1 + len(r.leftover)))
+			_, err := r.instantiateOn(r.real, 'F', kk, t.Choose(2), 0)
+			_, terr := r.instantiateOn(r.twin, 'F', kk, t.Choose(2), 0)
+			r.log("instantiate F (fails after its element segment) -> failed=%v", err != nil)
+			if err == nil || terr == nil {
+				r.res.Fail("behaviour-changed", "the importer with an out-of-bounds data segment instantiated: real err=%v twin err=%v", err, terr)
+				return
+			}
+			if r.leftover == nil {
+				r.leftover = map[int]int32{}
+			}
+			r.leftover[int(1+kk%3)] = kk
+			r.res.Stat("fault.failed_instantiation_leaves_function_in_table", 1)
+			r.followUp = append(r.followUp, 6, 100+int(1+kk%3)) // collect, then call through the slot
+			return
+		}
 		via := t.Choose(2)
 		rtIdx := 0
 		if shared && kind == 'C' {
@@ -413,6 +453,9 @@ func (r *runner) step(shared bool) {
 		}
 		if kind == 'B' || kind == 'D' || kind == 'E' {
 			ri.definer, ti.definer = r.curA, r.curA
+		}
+		if kind == 'E' {
+			delete(r.leftover, int(1+kk%3))
 		}
 		r.real.insts = append(r.real.insts, ri)
 		r.twin.insts = append(r.twin.insts, ti)
